@@ -261,6 +261,9 @@ RCP<const Set> Interval::set_complement(const RCP<const Set> &o) const
     if (is_a<Interval>(*o)) {
         set_set cont;
         const Interval &other = down_cast<const Interval &>(*o);
+        if (is_a<EmptySet>(*this->set_intersection(o))) {
+            return o;
+        }
         if (eq(*max({start_, other.start_}), *start_)) {
             cont.insert(interval(other.get_start(), start_,
                                  other.get_left_open(), not left_open_));
